@@ -117,7 +117,9 @@ def cases(tier, rng):
         # a CROWD of healthy subscribers around one that breaks at its high-water mark: whatever the hash order of the
         # peer table, the broken one almost surely has a successor in the walk — every healthy one must get every message
         for kind in ("BrokenPipe", "ConnectionReset"):
-            for victim in ((5,) if tier == "quick" else (1, 5, 9)):
+            # (every case is a fresh socket with its own hash order: three of them leave the broken peer LAST in all
+            # walks — the one position without a successor — with probability 9^-3)
+            for victim in ((1, 5, 9) if tier == "quick" else (1, 2, 3, 5, 7, 9)):
                 sc = wg.Script()
                 setup(sc, typ, 9)
                 sc.add(f"credit {victim[0] if isinstance(victim, tuple) else victim} 0")
